@@ -108,7 +108,8 @@ class World:
 
     def rid_list(self, tok, which='ref'):
         # every third token numbers all residues of the molecule alike (neighbouring residues may share a number)
-        return [100 * tok + (0 if tok % 3 == 0 else j) for j in range(self.nres(which))]
+        # and every fourth one uses numbers beyond the five columns of a coordinate file (a residue number is an int)
+        return [100 * tok + (0 if tok % 3 == 0 else j) + (100000 if tok % 4 == 1 else 0) for j in range(self.nres(which))]
 
     def set_rids(self, mol, tok, which='ref'):
         """residue numbers are varied on the coordinate-file side (gro_resid), the way System hands out the
